@@ -616,9 +616,9 @@ def rule_R6(ck):
     got = []
     I.summaries = dict(I.summaries)
     route = []
-    I.summaries["parser::parse"] = lambda I_, fn_, a, k: route.append(("parse", tuple(a), dict(k))) or sym.var("PARSED", "obj")
-    I.summaries["compiler::Compiler.compile_include"] = lambda I_, fn_, a, k: got.append(tuple(a[1:])) or sym.var("INCLUDED", "bytes")
-    I.summaries["devices::resolve_relative_path"] = lambda I_, fn_, a, k: route.append(("resolve", tuple(a), dict(k))) or sym.var("PATH", "str")
+    I.summaries["parser::parse"] = lambda I_, fn_, a, k: route.append(("parse", tuple(I_.positional(fn_, a, k)), {})) or sym.var("PARSED", "obj")
+    I.summaries["compiler::Compiler.compile_include"] = lambda I_, fn_, a, k: got.append(tuple(I_.positional(fn_, a, k)[1:])) or sym.var("INCLUDED", "bytes")
+    I.summaries["devices::resolve_relative_path"] = lambda I_, fn_, a, k: route.append(("resolve", tuple(I_.positional(fn_, a, k)), {})) or sym.var("PATH", "str")
     DOT_ = sym.var("DOT_OF_INCLUDE", "int")
 
     def thunk2():
